@@ -136,6 +136,7 @@ func (km *KeyManager) VerifyConsensusMessage(blockHeight primitives.BlockHeight,
 		return errors.New("nil sender")
 	}
 	ok := km.w.keys.MsgSigValid(sender.MemberId(), uint64(blockHeight), content, sender.Signature())
+	km.w.callCancel.verify(km.idx)
 	if h := km.w.kmHold; h != nil && h.node == km.idx && h.count > 0 {
 		// a slow key manager: this consumer thread's validation call is held here (blockproof.go)
 		h.count--
@@ -410,6 +411,7 @@ func (m *Membership) RequestOrderedCommittee(ctx context.Context, blockHeight pr
 }
 
 func (m *Membership) RequestCommitteeForBlockProof(ctx context.Context, blockHeight primitives.BlockHeight, prevBlockReferenceTime primitives.TimestampSeconds) ([]interfaces.CommitteeMember, error) {
+	m.n.w.callCancel.lookup(m.n.idx)
 	return m.n.w.Committee(uint64(blockHeight)), nil
 }
 
